@@ -7,6 +7,7 @@
    Strings are sequences of character CLASSES (the harness picks concrete characters of each class):
      "a"  letter/digit that is no printf escape letter     "sp" space         "sq" '      "dq" "      "bs" backslash
      "dl" $     "bt" backquote     "sc" shell operator ; | & ( ) < >          "nl" newline    "ct" other control char
+     "cw" control character that is white space (TAB, CR, VT)
      "pc" %     "bg" !             "na" non-ASCII letter    "at" @            "hy" -          "lb" one of [ ] { }
    Shell source text additionally uses the word tokens  C (curl) H (http) P (printf) oH (-H) oX (-X) od (-d)
    CL0 (content-length: 0)  S (scheme://)  sl (/)  co (:)  lp/rp ( and ) of $( )  lt3 (<<<)  xnl/xct (the four characters
@@ -33,7 +34,8 @@ Flat(ss) == IF Len(ss) = 0 THEN <<>> ELSE Head(ss) \o Flat(Tail(ss))
 ---------------------------------------------------------------------------
 (* export.py *)
 SafeCh == {"a", "pc", "at", "hy", "co", "sl", "S", "C", "H", "P", "oH", "oX", "od", "GET", "POST", "ctn", "oG", "odr"}   \* [\w@%+=:,./-]
-Ctl == {"nl", "ct"}
+Ctl == {"nl", "ct", "cw"}
+Blank == {"sp", "nl", "cw"}       \* white space: not at either end of a header name / value (HTTP trims it)
 
 \* shlex.quote
 ShlexQuote(s) ==
@@ -43,7 +45,8 @@ ShlexQuote(s) ==
        \o <<"sq">>
 
 \* request_content_for_console: control characters become \xNN; if there was one, wrap in "$(printf ...)"
-Escaped(s) == [i \in 1..Len(s) |-> IF s[i] = "nl" THEN "xnl" ELSE IF s[i] = "ct" THEN "xct" ELSE s[i]]
+Escaped(s) == [i \in 1..Len(s) |-> IF s[i] = "nl" THEN "xnl" ELSE IF s[i] = "ct" THEN "xct"
+                                    ELSE IF s[i] = "cw" THEN "xcw" ELSE s[i]]
 ContentForConsole(s) ==
   IF Repaired THEN ShlexQuote(s) ELSE
   IF \E i \in 1..Len(s) : s[i] \in Ctl
@@ -86,10 +89,11 @@ PrintfScan(f, i, acc) ==    \* acc = [out, bad]
     IF c = "pc" THEN [acc EXCEPT !.bad = TRUE]                              \* % starts a conversion
     ELSE IF c = "xnl" THEN PrintfScan(f, i + 1, [acc EXCEPT !.out = Append(@, "nl")])
     ELSE IF c = "xct" THEN PrintfScan(f, i + 1, [acc EXCEPT !.out = Append(@, "ct")])
+    ELSE IF c = "xcw" THEN PrintfScan(f, i + 1, [acc EXCEPT !.out = Append(@, "cw")])
     ELSE IF c = "bs" THEN
          IF nx = "bs" THEN PrintfScan(f, i + 2, [acc EXCEPT !.out = Append(@, "bs")])          \* \\ -> \
          ELSE IF nx = "sq" THEN PrintfScan(f, i + 2, [acc EXCEPT !.out = Append(@, nx)])          \* \' -> '  (\" stays)
-         ELSE IF nx \in {"xnl", "xct"} THEN [acc EXCEPT !.bad = TRUE]           \* \ + \xNN reads as \\ then xNN
+         ELSE IF nx \in {"xnl", "xct", "xcw"} THEN [acc EXCEPT !.bad = TRUE]           \* \ + \xNN reads as \\ then xNN
          ELSE PrintfScan(f, i + 1, [acc EXCEPT !.out = Append(@, "bs")])       \* unknown escape: kept
     ELSE PrintfScan(f, i + 1, [acc EXCEPT !.out = Append(@, c)])
 Printf(f) == IF Len(f) > 0 /\ f[1] = "hy" THEN [out |-> <<>>, bad |-> TRUE]        \* read as an option
@@ -203,8 +207,8 @@ Request(field, s) ==
 \* strings the request model can carry (the harness has the same restrictions, see README)
 Admissible(field, s) ==     \* IF rather than \/ : inside an action TLC would explore both disjuncts
   IF field \in {"method", "host"} THEN Len(s) > 0
-  ELSE IF field = "hname" THEN (IF Len(s) = 0 THEN FALSE ELSE s[1] # "sp" /\ s[Len(s)] # "sp")
-  ELSE IF field = "hval" THEN (IF Len(s) = 0 THEN TRUE ELSE s[1] # "sp" /\ s[Len(s)] # "sp")
+  ELSE IF field = "hname" THEN (IF Len(s) = 0 THEN FALSE ELSE s[1] \notin Blank /\ s[Len(s)] \notin Blank)
+  ELSE IF field = "hval" THEN (IF Len(s) = 0 THEN TRUE ELSE s[1] \notin Blank /\ s[Len(s)] \notin Blank)
   ELSE IF field = "getbody" THEN Len(s) > 0
   ELSE TRUE
 
@@ -212,7 +216,7 @@ Tags(r) ==
   LET has(c) == \E i \in 1..Len(r.body) : r.body[i] = c
       all == << <<"body_at", Len(r.body) > 0 /\ r.body[1] = "at">>,
                 <<"body_bs", has("bs")>>,
-                <<"body_ctl", has("nl") \/ has("ct")>>,
+                <<"body_ctl", has("nl") \/ has("ct") \/ has("cw")>>,
                 <<"body_hy", Len(r.body) > 0 /\ r.body[1] = "hy">>,
                 <<"body_pct", has("pc")>>,
                 <<"body_trail_nl", Len(r.body) > 0 /\ r.body[Len(r.body)] = "nl">>,
@@ -256,7 +260,7 @@ Export(fmt, field, s) ==
 
 \* raw export (assemble_request): the text is the request; admissible strings are those HTTP/1 can carry
 RawAdmissible(field, s) ==
-  LET noctl == \A i \in 1..Len(s) : s[i] \notin {"nl", "ct"}
+  LET noctl == \A i \in 1..Len(s) : s[i] \notin Ctl
       nosp == \A i \in 1..Len(s) : s[i] # "sp" IN
   IF field \in {"method", "hname"} THEN Len(s) > 0 /\ noctl /\ nosp
   ELSE IF field = "path" THEN noctl
